@@ -2,7 +2,7 @@
     delivery and of the client's merge is tied to the implementation by the correspondence; proved here
     are the content function's agreement with the specification, the commutation of one object's group
     payloads, and the kept findings. *)
-From GV Require Import Base.Prelude Model.Exec Model.Defer Model.DeferProto Proofs.ExecProofs Proofs.DeferProofs Proofs.DeferProtoProofs.
+From GV Require Import Base.Prelude Model.Exec Model.Defer Model.DeferProto Proofs.ExecProofs Proofs.DeferProofs Proofs.DeferProtoProofs Proofs.DeferMergeProofs.
 From Coq Require Import Permutation.
 Open Scope string_scope.
 Open Scope list_scope.
@@ -65,3 +65,28 @@ Theorem C13_child_before_parent_reachable :
   = Some (PDone, [(None, true); (Some 2, true); (Some 1, false)])%nat.
 Proof. vm_compute. reflexivity. Qed.
 Print Assumptions C13_child_before_parent_reachable.
+
+(** Content, for the deferred fields of ONE object when nothing fails: the initial payload holds the object with null
+    placeholders at the deferred keys, each label's group delivers its keys; merging the group payloads into the
+    initial object in ANY arrival order (repeats allowed), as long as every group arrives, gives exactly the object a
+    plain execution returns - whatever the values are (nested objects, lists ...).  Before all have arrived the object
+    holds exactly the delivered groups. *)
+Theorem C13_groups_of_one_object_any_order : forall (mark : string -> option string) (fields : list (string * jt)) (order : list string),
+  NoDup (map fst fields) ->
+  (forall kv l, In kv fields -> mark (fst kv) = Some l -> In l order) ->
+  fold_left (fun acc lab => obj_merge acc (TObj (group_obj mark fields lab))) order (TObj (initial_obj mark fields)) = TObj fields.
+Proof. exact groups_of_one_object_any_order_lemma. Qed.
+Print Assumptions C13_groups_of_one_object_any_order.
+Theorem C13_partial_delivery : forall (mark : string -> option string) (fields : list (string * jt)) (order : list string),
+  NoDup (map fst fields) ->
+  fold_left (fun acc lab => merge_keys acc (group_obj mark fields lab)) order (initial_obj mark fields)
+  = map (partial_val mark (rev order)) fields.
+Proof. intros mark fields order N. now apply partial_delivery_lemma. Qed.
+Print Assumptions C13_partial_delivery.
+Example C13_one_object_nonvacuous :
+  let mark := fun k => if String.eqb k "name" then Some "x" else if String.eqb k "a2" then Some "y" else None in
+  let fields := [("a1", TStr "a1"); ("name", TStr "n"); ("a2", TInt 2)] in
+  initial_obj mark fields = [("a1", TStr "a1"); ("name", TNull); ("a2", TNull)] /\
+  group_obj mark fields "y" = [("a2", TInt 2)] /\
+  fold_left (fun acc lab => obj_merge acc (TObj (group_obj mark fields lab))) ["y"; "x"] (TObj (initial_obj mark fields)) = TObj fields.
+Proof. vm_compute. repeat split; reflexivity. Qed.
